@@ -497,32 +497,35 @@ func ruleTYP5(p *Program) *RuleResult {
 	if err != nil {
 		return r.anchorFail(err)
 	}
-	ecs := evaluateCalls(as)
-	var isCalls []*ssa.Call
-	for _, b := range as.Blocks {
-		for _, ins := range b.Instrs {
-			if c, ok := ins.(*ssa.Call); ok {
-				if sc := c.Common().StaticCallee(); sc != nil && sc.Name() == "Is" {
-					isCalls = append(isCalls, c)
-				}
-			}
-		}
-	}
-	if len(ecs) == 1 && len(isCalls) == 1 {
+	{
 		st, _ := systemTypes(p)
 		item := st.strItem("x")
 		for _, isv := range []bool{false, true} {
 			an := newAnalyzer()
 			an.maxBlocks = 200
-			an.pin[ecs[0].call] = okTuple(coll(item))
-			an.pin[isCalls[0]] = cBool(isv)
-			an.callModel = func(c *ssa.CallCommon, args []aval) (aval, bool) {
-				if sc := c.StaticCallee(); sc != nil && sc.Name() == "TypeOf" {
-					return okTuple(tsVal("System", "String")), true
+			oe := newOperandEnv()
+			oe.results["field:Expr"] = okTuple(coll(item))
+			nIs := 0
+			oe.next = func(c *ssa.CallCommon, args []aval) (aval, bool) {
+				if sc := c.StaticCallee(); sc != nil {
+					switch sc.Name() {
+					case "TypeOf":
+						return okTuple(tsVal("System", "String")), true
+					case "Is":
+						if strings.HasSuffix(fnPkgPath(sc), "/fhirpath/internal/reflection") {
+							nIs++
+							return cBool(isv), true
+						}
+					}
 				}
 				return aval{}, false
 			}
-			res := an.analyze(as, []aval{nonnil("e"), nonnil("ctx"), top})
+			an.callModel = oe.model()
+			res := an.analyze(as, []aval{nodeReceiver(as, nil), nonnil("ctx"), top})
+			if !oe.evaluated["field:Expr"] || nIs == 0 {
+				r.undecided("AsExpression|shape", "the operand is not evaluated or no Is test is reached", p.pos(as.Pos()), "unsupported shape")
+				break
+			}
 			got := "?"
 			if len(res.rets) >= 1 && len(res.hazards) == 0 {
 				ok := true
@@ -548,8 +551,6 @@ func ruleTYP5(p *Program) *RuleResult {
 				r.bad(key, fmt.Sprintf("x as T with (x is T)=%v → %s (want %s)", isv, got, want), p.pos(as.Pos()), "`as` must return the item exactly when `is` holds, else empty")
 			}
 		}
-	} else {
-		r.undecided("AsExpression|shape", "operand Evaluate / Is call not found", p.pos(as.Pos()), "unsupported shape")
 	}
 	r.floor("sites", 2)
 	return r
